@@ -1,5 +1,6 @@
 import HeartwoodModel.Props.C05
 import HeartwoodModel.Props.C23
+import HeartwoodModel.Lemmas.CobAtomic
 /-!
 # C06 — Rejected collaborative-object changes leave no trace in the state
 
@@ -9,15 +10,9 @@ atomically` commit establishes for `Issue::op`, `Patch::op`, `Identity::op`, `Th
 look at the concurrent entries, the evaluated state and history equal the evaluation of the history
 from which the rejected changes and everything depending on them were removed.
 
-The per-type instances (`op_atomic_Issue`, `op_atomic_Patch`, `op_atomic_Identity`, `op_atomic_Thread`
-and their `SiblingIndependent` companions) are proved next to the per-type `op` models
-(`Model/Issue…`, C04/C07/C08) and are to be imported HERE to instantiate
-`evaluate_eq_evaluate_pruned`:
-
-    -- PER-TYPE COROLLARIES GO HERE (not faked):
-    --   theorem issue_rejected_leaves_no_trace := evaluate_eq_evaluate_pruned … op_atomic_Issue issue_sibling_independent
-    --   … Patch, Thread likewise. `Identity::op` is NOT sibling independent (see
-    --   `evaluate_pruned_counterexample_sibling_dependent` below).
+The per-type instances are at the end of this file (`issue_rejected_leaves_no_trace`,
+`patch_rejected_leaves_no_trace`, from `Lemmas/CobAtomic.lean` of the C04/C07/C08 models; for `Identity`
+only atomicity holds: `identity_atomic`, `identity_not_sibling_independent`).
 -/
 set_option linter.unusedSimpArgs false
 set_option linter.unusedVariables false
@@ -258,5 +253,80 @@ example :
     exHist.Wf ∧ Acyclic exHist.dependentsOf ∧ Atomic atomicApply ∧ SiblingIndependent atomicApply ∧
     r.keys? = some [0, 2] ∧ r.state? = some [0, 2] :=
   ⟨exHist_wf, exHist_acyclic, atomicApply_ok.1, atomicApply_ok.2, by decide, by decide⟩
+
+/-! ### per-type corollaries (models `Model/Issue.lean`, `Model/Patch.lean`, `Model/Identity.lean`) -/
+
+/-- `Issue::apply` as the evaluator sees it: the entry is the decoded `Op`; `concurrent` is ignored
+(`Issue::action` takes `_concurrent`). -/
+def issueApplyM (s : Issue.Issue) (_ : K) (e : Issue.Op) (_ : List (K × Issue.Op)) : Issue.Issue × Bool :=
+  (Issue.step s e, (Issue.apply s e).isSome)
+
+theorem issue_atomic : Atomic issueApplyM := by
+  intro s k e sibs h
+  simp only [issueApplyM] at h ⊢
+  cases hop : Issue.op s e with
+  | error err => exact (op_atomic_issue s e).1 err hop
+  | ok s' => simp [Issue.apply, hop] at h
+
+theorem issue_sibling_independent : SiblingIndependent issueApplyM := fun _ _ _ _ _ => rfl
+
+/-- **C06 for issues**: a rejected issue change never partially takes effect. -/
+theorem issue_rejected_leaves_no_trace {g g' : Dag Issue.Op} (hwf : g.Wf) (hac : Acyclic g.dependentsOf)
+    {sigOk : Issue.Op → Bool} {ts : Issue.Op → Nat} {init : Issue.Op → Option Issue.Issue}
+    {fuel : Nat} {root : K} {s : Issue.Issue}
+    (h : evaluate sigOk ts init issueApplyM fuel g root = .ok s g') :
+    evaluate sigOk ts init issueApplyM (evalFuel g' root) g' root = .ok s g' :=
+  evaluate_pruned_fuel hwf hac issue_atomic issue_sibling_independent h
+
+/-- `Patch::apply` as the evaluator sees it (`Patch::action` takes `_concurrent`). -/
+def patchApplyM (s : Patch.Patch) (_ : K) (e : Patch.Op) (_ : List (K × Patch.Op)) : Patch.Patch × Bool :=
+  (Patch.step s e, (Patch.apply s e).isSome)
+
+theorem patch_atomic : Atomic patchApplyM := by
+  intro s k e sibs h
+  simp only [patchApplyM] at h ⊢
+  cases hop : Patch.op s e with
+  | error err => exact (op_atomic_patch s e).1 err hop
+  | ok s' => simp [Patch.apply, hop] at h
+
+theorem patch_sibling_independent : SiblingIndependent patchApplyM := fun _ _ _ _ _ => rfl
+
+/-- **C06 for patches**: a rejected patch change never partially takes effect. -/
+theorem patch_rejected_leaves_no_trace {g g' : Dag Patch.Op} (hwf : g.Wf) (hac : Acyclic g.dependentsOf)
+    {sigOk : Patch.Op → Bool} {ts : Patch.Op → Nat} {init : Patch.Op → Option Patch.Patch}
+    {fuel : Nat} {root : K} {s : Patch.Patch}
+    (h : evaluate sigOk ts init patchApplyM fuel g root = .ok s g') :
+    evaluate sigOk ts init patchApplyM (evalFuel g' root) g' root = .ok s g' :=
+  evaluate_pruned_fuel hwf hac patch_atomic patch_sibling_independent h
+
+/-- `Identity::apply` as the evaluator sees it: `concurrent.is_empty()` is read off the siblings. -/
+def identityApplyM (V : Identity.Key → Identity.Sig → Identity.Blob → Bool) (s : Identity.Identity) (_ : K)
+    (e : Identity.Op) (sibs : List (K × Identity.Op)) : Identity.Identity × Bool :=
+  let e' : Identity.Op := { e with concurrent := !sibs.isEmpty }
+  (Identity.step V s e', (Identity.apply V s e').isSome)
+
+/-- `Identity::op` is atomic (since `fix: apply COB operations atomically`)… -/
+theorem identity_atomic (V : Identity.Key → Identity.Sig → Identity.Blob → Bool) : Atomic (identityApplyM V) := by
+  intro s k e sibs h
+  simp only [identityApplyM] at h ⊢
+  cases hop : Identity.op V s { e with concurrent := !sibs.isEmpty } with
+  | error err => exact (op_atomic_identity V s _).1 err hop
+  | ok s' => simp [Identity.apply, hop] at h
+
+/-- …but NOT sibling independent: an op by a non-delegate hits `UnexpectedState`, which fails the op
+only when there is no concurrent entry. Hence `evaluate_eq_evaluate_pruned` does not apply to
+identities, and its conclusion is false for them
+(`evaluate_pruned_counterexample_sibling_dependent`, KNOWN FINDING `identity-concurrent-sibling-pruned`). -/
+theorem identity_not_sibling_independent :
+    ¬ SiblingIndependent (identityApplyM fun _ _ _ => true) := by
+  intro h
+  let doc : Identity.IdDoc := { blob := 0, delegates := [0] }
+  let s : Identity.Identity :=
+    { current := 0, root := 0, heads := [],
+      revisions := [(0, some { doc, title := 0, state := .accepted, author := 0, parent := none, verdicts := [] })] }
+  let e : Identity.Op := { id := 1, author := 1, concurrent := false, actions := [.revisionReject 0] }
+  have := h s 1 e [] [(2, e)]
+  revert this
+  decide
 
 end HeartwoodModel.ChangeGraph
